@@ -271,6 +271,10 @@ func (fc *funcContext) translateStmt(stmt ast.Stmt, label *types.Label) {
 			case *types.Pointer:
 				length = fmt.Sprintf("%d", t2.Elem().Underlying().(*types.Array).Len())
 				elemType = t2.Elem().Underlying().(*types.Array).Elem()
+				if !isBlank(s.Value) && length != "0" {
+					// Reading elements through a nil array pointer panics.
+					fc.Printf("%s.nilCheck;", refVar)
+				}
 			case *types.Slice:
 				length = refVar + ".$length"
 				elemType = t2.Elem()
